@@ -268,6 +268,9 @@ pub enum OpCode {
     Emit = 227,
     Trace = 228,
 
+    // ----- debug decorators ---------------------------------------------------------------------
+    Breakpoint = 229,
+
     // ----- control flow -------------------------------------------------------------------------
     IfElse = 253,
     Repeat = 254,
